@@ -332,6 +332,7 @@ def main():
         samples.extend(r["samples"][:1])
     samples = samples[:4] or [{"obligation": "none", "smt2": ""}]
     inlined = sorted({x for r in records for x in r["inlined"]})
+    interpreted = sorted({x for r in records for x in r.get("interpreted", ())})
     noops = sorted({tuple(x) for r in records for x in r["noops"]})
     contracts_used = sorted({x for r in records for x in r["contracts_used"]})
     lib_used = sorted({x for r in records for x in r["lib_used"]})
@@ -348,6 +349,7 @@ def main():
             "checker_cmd": "cd /verif && ./check %s --tier %s" % (pid, tier),
             "trusted_base": COMMON_TRUSTED + ["inlined private helpers (their body is their contract): " + ", ".join(inlined)] if inlined else COMMON_TRUSTED,
             "functions_under_contract": [f for r in records for f in r["functions"]],
+            "functions_interpreted": interpreted,
             "units": units_ev,
             "obligation_names": ob_names,
             "by_backend": by_backend,
